@@ -79,6 +79,10 @@ def build_corpus(tier, rng):
         if rng.random() < 0.2:
             emetas.append(EM("prefix", "p/"))
         items.append(("random", Item("E", vs, metas=emetas)))
+    nk = Item("E", [Variant("A", "unit", [], [props([("color", ("s", "red")), ("n", ("i", 7)), ("ok", ("b", False))])]), Variant("B", "tuple", [Field("u8")]),
+                    Variant("C", "unit", [], [DISABLED, props([("color", ("s", "never"))])])])
+    nk.namesakes = True       # inherent get_str / get_int / get_bool on the user's enum
+    items.append(("inherent-namesakes", nk))
     # case-twin keys on one variant, under case-insensitive flags
     items.append(("case-twins", Item("E", [
         Variant("Metre", "unit", [], [props([("si", ("s", "m")), ("SI", ("s", "metre")), ("Si", ("i", 1))]), aci(True, explicit=False)]),
